@@ -284,6 +284,13 @@ def flag_broken_packages(ctx, gens, what):
                                        "package": g[0], "diagnostic": bytes.fromhex(g[3]).decode("utf-8", "replace")[:800],
                                        "spec": bytes.fromhex(g[4]).decode("utf-8", "replace"),
                                        "how": "write the spec to a file, run goag on it (with --client where the diagnostic names client.go), go build the output"})
+                if len(g) > 5 and g[5]:
+                    extra = json.loads(bytes.fromhex(g[5]).decode("utf-8", "replace"))
+                    if "spec" in extra:
+                        ctx.violations[-1]["generated_over_earlier_revision"] = extra
+                        ctx.violations[-1]["how"] = "run goag on the earlier revision (its spec, --donotedit as recorded) and then on the spec into the same directory, go build the output"
+                    else:
+                        ctx.violations[-1]["invocation"] = extra
     return n
 
 
